@@ -362,6 +362,8 @@ enum Case {
   /// (d) payload sources. `t.pl` = Pe. src 2: BOTH (token carries Pe, caller supplies Pd); 3: NEITHER.
   /// over 0: signature over h.Pd; 1: over h.Pe. doc: through CoreDocument::verify_jws (compact).
   Src { t: Tok, src: u8, pd: u8, over: u8, doc: bool },
+  /// (e) a general-serialization token whose signature entries are drawn from GENMIX (one index per entry)
+  GenMix { entries: Vec<u8> },
 }
 const REGION: [&str; 5] = ["compact-token", "protected-segment", "payload", "signature-segment", "detached-payload"];
 
@@ -1123,8 +1125,109 @@ fn eval_into(ctx: &Ctx, acc: &mut Acc, case: &Case) {
     }
     Case::Doc { t, pin_other, m, other_method } => eval_doc(ctx, acc, case, t, *pin_other, *m, *other_method),
     Case::Ver { alg, key, sig, via } => eval_ver(ctx, acc, case, *alg, *key, *sig, *via),
+    Case::GenMix { entries } => eval_genmix(ctx, acc, case, entries),
     Case::Src { t, src, pd, over, doc } => eval_src(ctx, acc, case, t, *src, *pd, *over, *doc),
   }
+}
+/// Entry kinds of (e). Every entry's signature is a genuine EdDSA signature by key #0 over `<its own protected
+/// member as sent>.<payload>` unless said otherwise; only `valid` names EdDSA in a decodable protected header.
+const GENMIX: [&str; 7] = [
+  "valid",
+  "decodable-header|garbage-signature",
+  "protected-not-base64",
+  "protected-base64-of-non-json",
+  "protected-names-an-unknown-alg",
+  "alg-only-in-the-unprotected-header",
+  "protected-absent|alg-in-unprotected-header",
+];
+fn eval_genmix(ctx: &Ctx, acc: &mut Acc, case: &Case, entries: &[u8]) {
+  acc.evals += 1;
+  const EP: &str = "Decoder::decode_general_serialization";
+  let payload = b"{\"x\":1}";
+  let pb = b64(payload);
+  let mut parts = Vec::new();
+  let mut sigs: Vec<Vec<u8>> = Vec::new();
+  for (n, e) in entries.iter().enumerate() {
+    // every entry gets its own kid so that the items can be told apart
+    let (prot, unprot): (Option<String>, Option<String>) = match e {
+      0 | 1 => (Some(b64(format!("{{\"alg\":\"EdDSA\",\"kid\":\"e{n}\"}}").as_bytes())), None),
+      2 => (Some(format!("!!{n}")), None),
+      3 => (Some(b64(format!("not-json-{n}").as_bytes())), None),
+      4 => (Some(b64(format!("{{\"alg\":\"HS999\",\"kid\":\"e{n}\"}}").as_bytes())), None),
+      5 => (Some(b64(format!("{{\"kid\":\"e{n}\"}}").as_bytes())), Some("{\"alg\":\"EdDSA\"}".to_string())),
+      _ => (None, Some(format!("{{\"alg\":\"EdDSA\",\"kid\":\"e{n}\"}}"))),
+    };
+    let input = format!("{}.{pb}", prot.clone().unwrap_or_default());
+    let sig = if *e == 1 { vec![n as u8 + 1; 64] } else { sign(0, 0, input.as_bytes()) };
+    let mut m = Vec::new();
+    if let Some(p) = &prot {
+      m.push(format!("\"protected\":\"{p}\""));
+    }
+    if let Some(u) = &unprot {
+      m.push(format!("\"header\":{u}"));
+    }
+    m.push(format!("\"signature\":\"{}\"", b64(&sig)));
+    parts.push(format!("{{{}}}", m.join(",")));
+    sigs.push(sig);
+  }
+  let token = format!("{{\"payload\":\"{pb}\",\"signatures\":[{}]}}", parts.join(","));
+  let names: Vec<&str> = entries.iter().map(|e| GENMIX[*e as usize]).collect();
+  let r = guard(|| {
+    with_items(2, token.as_bytes(), None, |items| -> Result<Vec<(usize, Result<(Option<String>, Vec<u8>), String>)>, String> {
+      let items = items.map_err(|e| err_label(&e))?;
+      let mut out = Vec::new();
+      for (pos, item) in items.into_iter().enumerate() {
+        match item {
+          Err(e) => out.push((pos, Err(format!("decode:{}", err_label(&e))))),
+          Ok(item) => {
+            // the entry this item carries: by its signature bytes
+            let idx = sigs.iter().position(|s| s[..] == *item.decoded_signature()).unwrap_or(pos);
+            let alg = item.protected_header().and_then(|h| h.alg()).map(|a| a.name().to_string());
+            out.push((idx, item.verify(&RealVerifier, &public(0, 0)).map(|d| (alg, d.claims.to_vec())).map_err(|e| format!("verify:{}", err_label(&e)))));
+          }
+        }
+      }
+      Ok(out)
+    })
+  });
+  match r {
+    Err(p) => ctx.violation(&format!("{EP}|{}", p.key()), &format!("{} | entries {names:?}", p.msg), case),
+    Ok(Err(l)) => {
+      // the whole token refused: fail-closed; demanded is acceptance only when every entry is valid
+      if entries.iter().all(|e| *e == 0) {
+        ctx.violation(&format!("{EP}|well-formed-token|rejected"), &format!("{l} | entries {names:?}"), case);
+      }
+      acc.out(format!("genmix:token-rejected:{l}"));
+    }
+    Ok(Ok(items)) => {
+      let mut verified = vec![false; entries.len()];
+      for (idx, res) in items {
+        let kind = entries.get(idx).copied().unwrap_or(0);
+        match res {
+          Ok((alg, claims)) => {
+            if kind != 0 {
+              ctx.violation(
+                &format!("JwsValidationItem::verify|general-entry:{}|accepted", GENMIX[kind as usize]),
+                &format!("entry #{idx} of {names:?} was reported verified (protected alg handed out: {alg:?}); token {token}"),
+                case,
+              );
+            } else if claims != payload || alg.as_deref() != Some("EdDSA") {
+              ctx.violation("JwsValidationItem::verify|general-entry|claims-or-alg-differ-from-received", &format!("entry #{idx} of {names:?}: alg {alg:?}"), case);
+            } else if let Some(v) = verified.get_mut(idx) {
+              *v = true;
+            }
+            acc.out(format!("genmix:{}:verified", GENMIX[kind as usize]));
+          }
+          Err(l) => acc.out(format!("genmix:{}:fails:{l}", GENMIX[kind as usize])),
+        }
+      }
+      // liveness only where every entry is valid (what a decoder does with the valid siblings of a bad entry is not fixed)
+      if entries.iter().all(|e| *e == 0) && verified.iter().any(|v| !*v) {
+        ctx.violation(&format!("{EP}|well-formed-token|rejected"), &format!("a valid entry of an all-valid token did not verify | entries {names:?}"), case);
+      }
+    }
+  }
+  ctx.distinct(&(9u8, entries.to_vec()));
 }
 fn eval(ctx: &Ctx, case: &Case) {
   let mut acc = Acc::default();
@@ -1321,6 +1424,29 @@ fn generate(ctx: &Ctx) {
   ctx.sample("verifier table", &cases[0]);
   cases.par_iter().for_each(|c| eval(ctx, c));
   account(ctx, "(c) concrete verifier table", cases.len() as u64, json!({"engine":"E1 full product","rows": cases.len(), "algs": VALGS, "keys": VKEYS, "signatures": VSIGS}));
+  // (e) general serialization, every sequence of 1..=3 entries over the GENMIX alphabet
+  let mut cases = Vec::new();
+  for n in 1..=3usize {
+    let mut idx = vec![0u8; n];
+    loop {
+      cases.push(Case::GenMix { entries: idx.clone() });
+      let mut k = 0;
+      while k < n {
+        idx[k] += 1;
+        if (idx[k] as usize) < GENMIX.len() {
+          break;
+        }
+        idx[k] = 0;
+        k += 1;
+      }
+      if k == n {
+        break;
+      }
+    }
+  }
+  ctx.sample("general entries", &cases[cases.len() / 2]);
+  cases.par_iter().for_each(|c| eval(ctx, c));
+  account(ctx, "(e) general serialization, mixed signature entries", cases.len() as u64, json!({"engine":"E1 full product","tokens": cases.len(), "entry_alphabet": GENMIX, "entries_per_token": "1..=3"}));
   ctx.bound("payloads", PAYLOADS.iter().map(|p| String::from_utf8_lossy(p).to_string()).collect::<Vec<_>>());
   ctx.bound("substitution_alphabet_len", json!({"EdDSA plain spelling": ctx.by_tier(SUBST.len(), 255), "ES256/ES256K plain spelling": ctx.by_tier(0, SUBST.len())}));
   ctx.bound("key_alg_pins", PINS);
